@@ -9,24 +9,26 @@
 (* unmapped) returned with symmetry pruning (all/comp/bt) or obtained by     *)
 (* applying the rule at every raw match (the raw fields).                            *)
 (***************************************************************************)
-EXTENDS Naturals, Sequences, FiniteSets, TLC, Json, IOUtils
+EXTENDS Prune, Json, IOUtils
 
 Cases == ndJsonDeserialize(IOEnv.CASES)
 
 Set(s) == {s[k] : k \in DOMAIN s}
 
-RECURSIVE AllFailsFrom(_, _, _)
-AllFailsFrom(cl, k, acc) ==
-   IF k > Len(cl) THEN (IF acc = "" THEN "ok" ELSE acc)
-   ELSE AllFailsFrom(cl, k + 1, IF cl[k][2] THEN acc ELSE IF acc = "" THEN cl[k][1] ELSE acc \o ";" \o cl[k][1])
-AllFails(cl) == AllFailsFrom(cl, 1, "")
+(* model_<strategy> = [pat, raw, keys] (see Prune.tla) is recorded whenever the pruned and the raw set differ;
+   Explained: the pruned set is exactly what the pruning algorithm as implemented returns *)
+HasModel(pm) == "pat" \in DOMAIN pm
+Explained(pruned, rawset, pm) == Set(pruned) = Set(rawset) \/ (HasModel(pm) /\ Set(pruned) = ModelResult(pm))
+AllExplained(c) == \A a \in DOMAIN c.v : /\ Explained(c.v[a].all, c.v[a].raw_all, c.v[a].model_all)
+                                           /\ Explained(c.v[a].comp, c.v[a].raw_comp, c.v[a].model_comp)
+                                           /\ Explained(c.v[a].bt, c.v[a].raw_bt, c.v[a].model_bt)
 
-(* the raw (unpruned) result sets do not depend on the writing and contain the pruned ones:
-   then a difference between pruned sets is the known symmetry-pruning finding *)
+(* the raw (unpruned) result sets do not depend on the writing and contain the pruned ones, and every pruned set is
+   what Prune.tla computes from the raw matches: then a difference between pruned sets is the known symmetry-pruning finding *)
 RawAgree(c) == /\ \A a, b \in DOMAIN c.v : Set(c.v[a].raw_all) = Set(c.v[b].raw_all) /\ Set(c.v[a].raw_comp) = Set(c.v[b].raw_comp)
                /\ \A a \in DOMAIN c.v : Set(c.v[a].all) \subseteq Set(c.v[a].raw_all) /\ Set(c.v[a].comp) \subseteq Set(c.v[a].raw_comp)
                                        /\ Set(c.v[a].bt) \subseteq Set(c.v[a].raw_bt)
-Tag(c, base) == IF RawAgree(c) THEN base \o "[only-symmetry-pruning-differs]" ELSE base
+Tag(c, base) == IF RawAgree(c) /\ AllExplained(c) THEN base \o "[only-symmetry-pruning-differs]" ELSE base
 
 Verdict(c) ==
    IF c.claim = "C05" THEN
@@ -44,7 +46,7 @@ Verdict(c) ==
    ELSE
       AllFails(<<
          <<"pruning-invents-a-reaction", \A a \in DOMAIN c.v : Set(c.v[a].all) \subseteq Set(c.v[a].raw_all) /\ Set(c.v[a].comp) \subseteq Set(c.v[a].raw_comp)>>,
-         <<"symmetry-pruning-loses-a-distinct-reaction[pruned-set-smaller-than-raw-set]",
+         <<"symmetry-pruning-loses-a-distinct-reaction" \o (IF AllExplained(c) THEN "[pruned-set-smaller-than-raw-set]" ELSE ""),
               \A a \in DOMAIN c.v : (Set(c.v[a].all) \subseteq Set(c.v[a].raw_all) /\ Set(c.v[a].comp) \subseteq Set(c.v[a].raw_comp))
                                      => (Set(c.v[a].all) = Set(c.v[a].raw_all) /\ Set(c.v[a].comp) = Set(c.v[a].raw_comp))>>
       >>)
